@@ -367,6 +367,8 @@ def _getters(run, prog, cls):
                 if a != rawt:
                     total_forms.append(t)
     seen_kinds = set()
+    # the keys of the raw dict when it is the display {k: ... for k in KEYS} (iterating it is iterating KEYS)
+    raw_keys = rawt[3] if rawt[0] == "comp" and rawt[1] == "dict" and not rawt[6] and rawt[4] == ("elem", rawt[2]) else ("?",)
     tries = [ev for ev, _ in walk(s.events, structural=True) if isinstance(ev, ir.Try)]
     from .boolalg import holds
     for guards, v, line, ctx in return_cases(s):
@@ -391,7 +393,8 @@ def _getters(run, prog, cls):
                 run.check(zero_t, "ZERODIV", "N1.zero", f"{s.path}:{line}", fq, f"zero fallback under [{gtxt}]",
                           f"the all-zero result must be selected by an explicit test `sum == 0`; it is returned under [{gtxt}]",
                           "zero sum: explicit == 0 test selects the all-0.0 dict")
-            keys_ok = v[3] == rawt or (v[3][0] == "res" and v[3][2] in (".keys", ".items") and v[3][3][0] == rawt)
+            keys_ok = v[3] == rawt or (v[3][0] == "res" and v[3][2] in (".keys", ".items") and v[3][3][0] == rawt) or \
+                v[3] == raw_keys
             run.check(keys_ok and v[4] == ("elem", v[2]), "FORMULA", "N1.zero-keys", f"{s.path}:{line}", fq,
                       f"zero dict over {ir.show_nl(v[3])}",
                       "the all-zero result must cover every tracked key", "zeros for every tracked key")
@@ -401,7 +404,7 @@ def _getters(run, prog, cls):
             num, den = v[5][2], v[5][3]
             over_items = v[3][0] == "res" and v[3][2] == ".items" and v[3][3][0] == rawt
             shape = over_items and v[4] == ("tget", ("elem", v[2]), 0) and num == ("tget", ("elem", v[2]), 1)
-            shape = shape or (v[3] in (rawt,) and v[4] == ("elem", v[2]) and num == ("sub", rawt, ("elem", v[2])))
+            shape = shape or (v[3] in (rawt, raw_keys) and v[4] == ("elem", v[2]) and num == ("sub", rawt, ("elem", v[2])))
             run.check(shape and den in total_forms, "FORMULA", "N1.ratio", f"{s.path}:{line}", fq,
                       f"normalised value {ir.show_nl(v[5])}",
                       f"every value must be divided by the sum of all tracked values; found {ir.show_nl(v[5])}",
